@@ -442,14 +442,56 @@ Definition mvar_subset (mv : mvar) (retain : bool) (kept : list Z) : option (lis
       end
   end.
 
+(* ---- gvar offsets (klippa/src/gvar.rs Gvar::subset, subset_with_offset_type, GvarOffset::stored_value) ---- *)
+(* abstract gvar: byte length of data_for_gid(g) for g = 0..n-1 (0 = none / unreadable) *)
+Definition gv_len (lens : list Z) (g : Z) : Z := match znth lens g with Some l => l | None => 0 end.
+
+(* the glyphs whose data is written: .notdef is skipped unless NOTDEF_OUTLINE *)
+Definition gv_written (retain notdef : bool) (kept : list Z) : list (Z * Z) :=
+  filter (fun p => negb ((fst p =? 0) && negb notdef))
+         (map (fun old => (match glyph_map retain kept old with Some g => g | None => 0 end, old)) kept).
+
+(* in the short format every glyph's data is padded to an even length with one zero byte *)
+Definition gv_pad (l : Z) : Z := l + l mod 2.
+
+(* subset_data_size: padded data of the OLD glyph ids that are written *)
+Definition gv_size_estimate (lens : list Z) (retain notdef : bool) (kept : list Z) : Z :=
+  fold_left (fun acc p => acc + gv_pad (gv_len lens (snd p))) (gv_written retain notdef kept) 0.
+
+Definition gv_long (lens : list Z) (retain notdef : bool) (kept : list Z) : bool :=
+  131070 <? gv_size_estimate lens retain notdef kept.          (* > 0x1FFFE *)
+
+(* GvarOffset::stored_value: u16: (val / 2) as u16; u32: val *)
+Definition gv_stored (long : bool) (off : Z) : Z :=
+  if long then off mod 4294967296 else (off / 2) mod 65536.
+(* how a reader gets the offset back (read-fonts U16Or32 / spec: short offsets are multiplied by 2) *)
+Definition gv_read (long : bool) (v : Z) : Z := if long then v else 2 * v.
+
+(* end offset of new glyph i = total data written for new ids <= i (gaps and the skipped .notdef repeat the
+   running offset): exactly what the loop of subset_with_offset_type leaves in slot i + 1; slot 0 stays 0.
+   Short format: glyph_offset is even before every glyph, so each glyph contributes its padded length. *)
+Definition gv_end_offset (long : bool) (lens : list Z) (retain notdef : bool) (kept : list Z) (i : Z) : Z :=
+  fold_left (fun acc p => if fst p <=? i
+                          then acc + (if long then gv_len lens (snd p) else gv_pad (gv_len lens (snd p)))
+                          else acc) (gv_written retain notdef kept) 0.
+
+Definition gvar_subset (lens : list Z) (retain notdef : bool) (kept : list Z) : Z * list Z :=
+  let long := gv_long lens retain notdef kept in
+  let n := Z.min (num_output retain kept) 65535 in
+  ((if long then 1 else 0),
+   0 :: map (fun i => gv_stored long (gv_end_offset long lens retain notdef kept i)) (zrange n)).
+
 (* ---- correspondence case format (written by harness/src/bin/c17.rs) ---- *)
 Inductive observed :=
 | OPanic | OErr | OUnreadable
 | OOut (num_glyphs : Z) (glyphs : option (list glyph)) (hmtx : option (Z * list (Z * Z)))
        (cmap : list (Z * Z)) (cmap4_multi : bool)
        (cmap4 : option (list (Z * Z)))
-       (mvars : list (mvar * list (option (Z * Z * list Z)))).
-(* mvars = for HVAR / VVAR present in both fonts: the original's index maps and what the subset's index maps
+       (mvars : list (mvar * list (option (Z * Z * list Z))))
+       (gvar : option (list Z * (Z * list Z))).
+(* gvar  = per-glyph data lengths of the original's gvar, and the subset's gvar flags word and offsets
+           array as stored;
+   mvars = for HVAR / VVAR present in both fonts: the original's index maps and what the subset's index maps
            say as raw bytes (entry format byte, mapCount, entry values);
    cmap  = what skrifa's Charmap says of the subset;
    cmap4 = what the subset's format-4 subtables say when read directly (Cmap4::iter), given only when every
@@ -482,7 +524,7 @@ Definition check_case (c : afont * (list Z * list Z * Z) * observed) : bool :=
   let '(F, (gids, unis, flags), obs) := c in
   match subset_model F gids unis flags, obs with
   | Panic, OPanic => true
-  | Out n gl hm cm, OOut n' gl' hm' cm' multi cm4 mvs =>
+  | Out n gl hm cm, OOut n' gl' hm' cm' multi cm4 mvs gv =>
       (n =? n') && opt_eqb (list_eqb glyph_eqb) gl gl'
       && opt_eqb (fun a b => (fst a =? fst b) && list_eqb pair_eqb (snd a) (snd b)) hm hm'
       && (if multi then list_eqb Z.eqb (map fst cm) (map fst cm')   (* byte encoder defect: chars only *)
@@ -499,5 +541,11 @@ Definition check_case (c : afont * (list Z * list Z * Z) * observed) : bool :=
                         list_eqb (opt_eqb (fun a b => (fst (fst a) =? fst (fst b)) && (snd (fst a) =? snd (fst b))
                                                       && list_eqb Z.eqb (snd a) (snd b))) pred (snd mo)
                     end) mvs
+      && (match gv with
+          | None => true
+          | Some (lens, (fl, offs)) =>
+              let pred := gvar_subset lens (flag_retain flags) (flag_notdef flags) (kept_glyphs F gids unis) in
+              (fst pred =? fl) && list_eqb Z.eqb (snd pred) offs
+          end)
   | _, _ => false
   end.
